@@ -167,3 +167,11 @@ PROPS['C16'] = dict(
                 'cell, CSV records. T1 obligations on the renderer width arithmetic are listed in the evidence as they are built.',
     trusted_base=['Beancount DisplayContext formatting', 'str.ljust/rjust/center semantics'], assumptions=[],
 )
+
+PROPS['C04'] = dict(
+    level='other', harness='h04', min_t1=0,
+    explanation='Bounded (T3): for every registered function / operator overload, conforming operands from per-type pools are evaluated and the value checked against '
+                'the declared datatype (and for TypeError); every column of every ledger table, structured attribute access, every aggregate x column type, interval arithmetic, '
+                'renderer lookup for every announced datatype. T1 obligations in the type-tag domain are listed in the evidence as they are built.',
+    trusted_base=['Beancount field types'], assumptions=['collections conform by kind (set / list interchangeable), object admits anything'],
+)
